@@ -1,9 +1,13 @@
 package main
 
 import (
+	"bufio"
 	"bytes"
+	"encoding/json"
 	"fmt"
 	"math/big"
+	"os"
+	"runtime/debug"
 	"sort"
 	"strings"
 
@@ -509,14 +513,34 @@ func (w *world) run(entered bool) vmcommon.ReturnCode {
 }
 
 func replay(path string) {
-	bs, err := vtrace.ReadBehaviours(path)
+	// behaviours are streamed (one JSON line at a time): the files reach tens of MB and decoding them all at once
+	// makes the garbage collector the dominant cost
+	f, err := os.Open(path)
 	if err != nil {
 		vtrace.Broken(err.Error())
 		return
 	}
+	defer f.Close()
+	debug.SetGCPercent(400)
+	rd := bufio.NewReaderSize(f, 1<<20)
 	rep := &report{distinct: vtrace.NewDistinct(), sigs: map[string]int{}, codes: map[string]int{}}
 	nontrivial := 0
-	for bi, b := range bs {
+	nb := 0
+	for bi := 0; ; bi++ {
+		line, rerr := rd.ReadBytes('\n')
+		if len(line) <= 1 {
+			if rerr != nil {
+				break
+			}
+			bi--
+			continue
+		}
+		var b []vtrace.Step
+		if e := json.Unmarshal(line, &b); e != nil {
+			vtrace.Broken(fmt.Sprintf("behaviour line %d: %v", bi+1, e))
+			return
+		}
+		nb++
 		if len(b) == 0 || b[0].A != "New" {
 			vtrace.Broken("behaviour without New record")
 			return
@@ -547,7 +571,7 @@ func replay(path string) {
 			vtrace.Sample("C40", b)
 		}
 	}
-	vtrace.Stat("behaviours", len(bs))
+	vtrace.Stat("behaviours", nb)
 	vtrace.Stat("steps", rep.steps)
 	vtrace.Stat("failed_inner_calls", rep.fails)
 	vtrace.Stat("distinct", rep.distinct.Len())
